@@ -33,7 +33,7 @@ func (l *InterceptingListener) getTlsConfigForClient(clientInfo *ClientInfo) fun
 		var trimmedProtos []string
 		// Copy client next proto information to returned value
 		if len(hello.SupportedProtos) > 0 {
-			trimmedProtos = make([]string, len(hello.SupportedProtos))
+			trimmedProtos = make([]string, 0, len(hello.SupportedProtos))
 			// If we have a certificate selector in NextProtos, pull it out and remove it from the list
 			// of protos, as it's only for internal routing use
 			for _, proto := range hello.SupportedProtos {
